@@ -24,7 +24,7 @@ pub fn def() -> CheckDef {
         runs_quick: 500_000,
         runs_thorough: 10_000_000,
         rule: "seeded histories (1-12 ops: blocks via 9 call forms incl. driver scripts over the backend, restart-from-exported-state, clone) on cbc/pcbc/ige Encryptor/Decryptor over the harness cipher (block sizes 1,2,3,8,16,17,255; backend width per call from {1,2,3,5,8}) or AES-128/Magma/Kuznyechik; compared step by step with the reference recurrences. distinct = distinct (mode, block size, cipher, width policy, op-kind/call-form/size-class sequence); non-trivial = processed >= 1 block",
-        required_probes: &["par_groups_then_tail", "dishonest_ciphertext", "bs1", "bs255", "restart", "script_call", "state_after_tail"],
+        required_probes: &["par_groups_then_tail", "dishonest_ciphertext", "bs1", "bs255", "restart", "script_call", "state_after_tail", "padded_one_shot"],
         r#gen,
         exec,
         components: "real code: cbc, pcbc, ige crates and the cipher crate's BlockMode* front ends; stub: block cipher (SimCipher toy permutation) in most runs, real AES-128/Magma/Kuznyechik in the rest; oracle: reference recurrences in sim/src/model.rs",
@@ -48,6 +48,10 @@ fn r#gen(rng: &mut Rng, thorough: bool) -> Scn {
             1 => s.ops.push(Op::new("clone")),
             _ => s.ops.push(Op::new("blocks").n(rng.nblocks(maxb, w)).via(rng.below(N_VIA as u64) as u8).p(rng.next() as u128)),
         }
+    }
+    if mode.ends_with("enc") && rng.chance(1, 3) {
+        let g = s.bs as u64;
+        s.ops.push(Op::new("padded").n(rng.nbytes(6 * g, g)).via(rng.below(3) as u8).ty(rng.below(5) as u8));
     }
     if mode.ends_with("dec") {
         s.set_num("honest", rng.below(3) as u128);
